@@ -1,5 +1,6 @@
 // Interface driven by the C11 session check: a three-level virtual chain, an unrelated class, a class in a
 // namespace, objects passed by value / reference / shared pointer / raw pointer, objects returned by value /
+// mutable reference (a copy reaches MATLAB) /
 // shared pointer (static type = base, dynamic type = derived), properties, statics, free functions, defaults, pairs.
 virtual class Base {
   Base();
@@ -27,6 +28,7 @@ class Other {
   string name() const;
   int probe(Base@ raw) const;
   Other twin() const;
+  Other& me();
   static int Count();
   double gain;
 };
